@@ -296,6 +296,22 @@ func keyHasPrefix(name, prefix string) bool {
 
 // havocLoc havocs one location (all components) of a place.
 func (st *State) havocPlace(p *PtrV) {
+	if p.Kind == PCell && p.Cell < 0 {
+		return
+	}
+	if p.Kind == PGlobal && strings.HasPrefix(p.Key, "ghost:") {
+		ki := st.vc.reg.m[p.Key]
+		if ki == nil {
+			return
+		}
+		cur := st.heapVar(ki)
+		if p.Idx != nil && ki.Sort.Kind == SArray {
+			st.heap[p.Key] = Store(cur, p.Idx, Fresh("hv:"+p.Key, ki.Sort.Elem))
+		} else {
+			st.heap[p.Key] = Fresh("hv:"+p.Key, ki.Sort)
+		}
+		return
+	}
 	if p.Kind == PCell {
 		fv, facts := st.vc.freshVal("hv", p.Elem)
 		st.store(p, fv)
